@@ -385,6 +385,10 @@ func c08Run(w *W) {
 		// a header set by the application means nothing on a cooked socket - not
 		// even one that spells the id of the connection the old content came on
 		rm.Header = append(rm.Header[:0], u32(rm.Pipe.ID())...)
+		if n := w.Choose(simrt.SProg, 4); n > 0 {
+			// ... nor a header of another length (a message that came from some other socket)
+			rm.Header = append(rm.Header[:0], patBody("hdr", []int{1, 8, 12}[n-1])...)
+		}
 		w.Probe("application-header-on-cooked-socket")
 	}
 	if err := a.s.SendMsg(rm); err != nil {
